@@ -220,7 +220,15 @@ def gen_design(rng, opts=None):
                     else:
                         c = g.scalar(ww, 2, allow_ref=False)
                 elif "pair" in inst:
-                    c = {"k": "bundle", "n": g.bundle_inst("Diff")} if r < 0.4 else g.scalar(w, 1, allow_ref=False)
+                    if r < 0.3:
+                        c = {"k": "bundle", "n": g.bundle_inst("Diff")}
+                    elif r < 0.55 and opts.get("anon", True):
+                        # an anonymous bundle (also as dict shorthand), members in either order
+                        fields = [["p", g.scalar(w, 1, allow_ref=False)], ["n", g.scalar(w, 1, allow_ref=False)]]
+                        rng.shuffle(fields)
+                        c = {"k": "anon", "fields": fields}
+                    else:
+                        c = g.scalar(w, 1, allow_ref=False)
                 elif r < 0.14 and opts.get("noconns", True):
                     c = {"k": "noconn"}
                     rr = rng.random()
